@@ -214,6 +214,32 @@ def run_property(mod, tier, seed):
         else:
             ctx.obligation("theorems:" + pf, False, "file missing")
 
+    # 4a. thorough tier: independent re-check of the compiled property file (and everything it depends on) with coqchk
+    if tier == "thorough" and pf and os.path.exists(os.path.join(coq.COQ, pf[:-2] + ".vo")):
+        modname = "SFV." + pf[:-2].replace("/", ".")
+        try:
+            pr = subprocess.run(["timeout", "2400", "coqchk", "-silent", "-o", "-Q", ".", "SFV", modname], cwd=coq.COQ,
+                                stdout=subprocess.PIPE, stderr=subprocess.STDOUT, text=True)
+            out = pr.stdout
+            ctx.checker_cmds.append("cd coq && coqchk -silent -o -Q . SFV " + modname)
+            import re as _re
+            summary = out[out.find("CONTEXT SUMMARY"):] if "CONTEXT SUMMARY" in out else out[-1500:]
+            def _sect(title):
+                m = _re.search(r"\* " + title + r":(.*?)(?=\n\* |\Z)", summary, _re.S)
+                return (m.group(1).strip() if m else "?")
+            ax = _sect("Axioms")
+            tit = _sect("Constants/Inductives relying on type-in-type")
+            unsafe = _sect("Constants/Inductives relying on unsafe \\(co\\)fixpoints")
+            pos = _sect("Inductives whose positivity is assumed")
+            allowed = set(getattr(mod, "ALLOWED_AXIOMS", set()))
+            ax_names = [] if ax == "<none>" else [a.split(":")[0].strip() for a in ax.split("\n") if a.strip()]
+            bad_ax = [a for a in ax_names if a not in allowed and a.split(".")[-1] not in allowed]
+            okc = pr.returncode == 0 and not bad_ax and tit == "<none>" and unsafe == "<none>" and pos == "<none>"
+            ctx.extra["coqchk"] = {"axioms": ax_names, "type_in_type": tit, "unsafe_fixpoints": unsafe, "assumed_positivity": pos}
+            ctx.obligation("coqchk:" + modname, okc, summary[-1500:])
+        except Exception as e:
+            ctx.obligation("coqchk:" + modname, False, repr(e))
+
     # 4b. corpus: minimised past failures / recorded findings are replayed first
     import glob as _g, io as _io, contextlib as _cl
     rp = getattr(mod, "replay", None)
